@@ -123,3 +123,14 @@ func BoundaryString(tokens []string) *rapid.Generator[string] {
 		return head + strings.Repeat(filler, n/len(filler)) + tail
 	})
 }
+
+// Rarely is true about once in oneIn draws.  rapid's integer generator is strongly biased towards the ends of a
+// range (0 comes up in about 10% of the draws from [0,249]), so a rare event must not be coded as "== 0": it is
+// tied to a value in the middle of the range, which is drawn with about half the uniform probability.
+func Rarely(t *rapid.T, label string, oneIn int) bool {
+	n := oneIn / 2
+	if n < 4 {
+		n = 4
+	}
+	return rapid.IntRange(0, n).Draw(t, label) == n/2+1
+}
